@@ -85,6 +85,7 @@ func VH_ancestor_equals_parent_walk() {
 	vReach("end")
 }
 
+// C17(3'): RelativeAncestor(d) == Ancestor(height - d) == naive parent walk, including distances beyond genesis (nil).
 //verif:opts reach=end
 func VH_relative_ancestor() {
 	L := 20
